@@ -153,6 +153,7 @@ class AirTouchSocket(Generic[comms.Hdr]):
 
         self.is_open = False
         self.is_connected = False
+        self._connecting = False
 
         self._background_tasks: set[asyncio.Task[Any]] = set()
 
@@ -292,15 +293,19 @@ class AirTouchSocket(Generic[comms.Hdr]):
         task.add_done_callback(discard_task)
 
     async def _connect(self) -> None:
-        if self.is_connected:
-            _LOGGER.debug("_connect ignored. Already connected")
+        if self.is_connected or self._connecting:
+            _LOGGER.debug("_connect ignored. Already connected or connecting")
             return
 
         _LOGGER.debug("Attempting to open connection to %s:%d", self.host, self.port)
         try:
-            self._reader, self._writer = await asyncio.open_connection(
-                host=self.host, port=self.port
-            )
+            self._connecting = True
+            try:
+                self._reader, self._writer = await asyncio.open_connection(
+                    host=self.host, port=self.port
+                )
+            finally:
+                self._connecting = False
 
             self.is_connected = True
             _LOGGER.debug("Connected to %s:%d", self.host, self.port)
@@ -320,13 +325,19 @@ class AirTouchSocket(Generic[comms.Hdr]):
     async def _disconnect(self) -> None:
         _LOGGER.debug("_disconnect: is_connected=%s", self.is_connected)
 
-        if self._writer:
-            self._writer.close()
+        writer = self._writer
+        if writer:
+            writer.close()
             # wait_closed could raise an error if the socket has been closed by
             # the other side. This will already have been logged, so just
             # suppress it here.
             with contextlib.suppress(OSError):
-                await self._writer.wait_closed()
+                await writer.wait_closed()
+
+        if self._writer is not writer:
+            # Another task completed the disconnect (and possibly a reconnect)
+            # while this one was waiting: leave the newer state alone.
+            return
 
         self.is_connected = False
         self._reader = None
